@@ -210,6 +210,13 @@ def cases(tier):
                             ("lower_filter", "?(c)|lower", ("x_us", "x_ea")), ("upper_filter", "?(c)|upper", ("x_US", "x_EA"))):
         src_, sp_ = _case_loop(tok, names)
         B2.append((f"for_loop_control_case:{cid}", src_, sp_, None))
+    # signed numbers as !for tokens (lags generated by a loop), written directly and produced by a contextual expression
+    negsp = Spec(("x", "y", "z"), ("e",), ("a", "b"), ("x = a*x[-1] + b*y[-1] + b*y[-2] + e", "y = a*y[-1] + b + e", "z = x[-1] - y[+1]"))
+    negsrc = ("!transition-variables\n    x, y, z\n!transition-shocks\n    e\n!parameters\n    a, b\n!transition-equations\n"
+              "    x = a*x[-1] !for ?k = -1, -2 !do + b*y[?k] !end + e;\n    y = a*y[-1] + b + e;\n    z = x[-1] - y[+1];\n")
+    B2.append(("for_loop_negative_tokens", negsrc, negsp, None))
+    B2.append(("for_loop_negative_tokens_from_context", negsrc.replace("?k = -1, -2", "?k = <lags>"), negsp, {"lags": [-1, -2]}))
+    B2.append(("for_loop_signed_tokens", negsrc.replace("?k = -1, -2", "?k = -1 -2").replace("z = x[-1] - y[+1]", "z = x[-1] !for ?j = +1 !do - y[?j] !end"), negsp, None))
     # an !if without !else followed by a sibling !if ... !else ... !end
     ifsib = ("!transition-variables\n    x, y, z\n!transition-shocks\n    e\n!parameters\n    a, b\n!transition-equations\n"
              "    x = a*x[-1] + b + e;\n    !if flag !then\n    y = a*y[-1] + b + e;\n    !end\n"
